@@ -206,7 +206,7 @@ CATALOGUE = [
     ("C14", "c14-zero-trip-body-unchecked", AN, "        dry_run = not iteration_values and bool(node.body)\n", "        dry_run = False\n", 1, "fire", "C14-R4"),
     ("C16", "c16-iterator-without-value", AN, "value_type=IntValue(value=value),", "value_type=IntValue(),", 1, "fire", "C16-R12"),
     ("C10", "c10-suppressed-constant-materialised", SA, "        if isinstance(entry.producer, IRConst) and not entry.producer.signals:\n            # A plain constant needs no combinator for that: its readers take the literal\n            return False\n", "", 1, "fire", "plain constant"),
-    ("C12", "c12-merge-ids-as-strings", CP, "            merge_list = sorted(\n                source_merge_edges.keys(),\n                key=lambda merge_id: [\n                    int(part) if part.isdigit() else part\n                    for part in re.split(r"(\\d+)", merge_id)\n                ],\n            )\n", "            merge_list = sorted(source_merge_edges.keys())\n", 1, "fire", "C12-R12"),
+    ("C12", "c12-merge-ids-as-strings", CP, '            merge_list = sorted(\n                source_merge_edges.keys(),\n                key=lambda merge_id: [\n                    int(part) if part.isdigit() else part\n                    for part in re.split(r"(\\d+)", merge_id)\n                ],\n            )\n', '            merge_list = sorted(source_merge_edges.keys())\n', 1, "fire", "C12-R12"),
     ("C15", "c15-local-int-materialised", SL, "            if stmt.type_name == \"int\" or (symbol and isinstance(symbol.value_type, IntValue)):", "            if symbol and isinstance(symbol.value_type, IntValue):", 1, "fire", "C15-R27"),
     ("C15", "c15-counter-id-unprobed", ML, "            while self.ir_builder.get_operation(f\"mem_create_{memory_id}\") is not None:\n                # mem_<name>_<n> can be the id of a memory the program called <name>_<n>\n                memory_id = self.ir_builder.next_id(f\"mem_{stmt.name}\")\n", "", 1, "fire", "C15-R28"),
     ("C03", "c03-passthrough-enable-renamed", ML, "                if isinstance(source_node, IRDecider) and not source_node.copy_count_from_input:", "                if isinstance(source_node, IRDecider):", 1, "fire", "pass-through gate"),
